@@ -54,6 +54,21 @@ func init() {
 					items = append(items, Item{ID: "noreg:" + mc.ID(), Run: func(c *Ctx) { c17variant(c, mc, "noreg", -1) }})
 				}
 				if mc.N == 0 {
+					// every text length 0..300 of the last length-prefixed text (symbolic length: scratch arrays and
+					// small-value fast paths have their limits somewhere in there)
+					ts := c.sc.Mods[mc.Mod].Types[mc.Typ]
+					last := -1
+					for i, f := range ts.Fields {
+						if f.Kind == "pstr" {
+							last = i
+						}
+					}
+					if last >= 0 {
+						last := last
+						items = append(items, Item{ID: "longtext:" + mc.ID() + "/" + ts.Fields[last].Go, Run: func(c *Ctx) { c17variant(c, mc, "longtext", last) }})
+					}
+				}
+				if mc.N == 0 {
 					// the same into a partly drained buffer (consumed bytes in front, unknown spare capacity behind)
 					items = append(items, Item{ID: "drained:" + mc.ID(), Run: func(c *Ctx) { c17variant(c, mc, "drained", -1) }})
 				}
@@ -231,6 +246,13 @@ func c17variant(c *Ctx, mc MsgCase, kind string, fieldIdx int) {
 	drained := false
 	noreg := false
 	switch kind {
+	case "longtext":
+		n := 300
+		if w := typeWidth(ts.Fields[fieldIdx].Prefix); w == 8 {
+			n = 255
+		}
+		h.m.F[fieldIdx] = h.g.symText(s, "long", n)
+		h.mPtr = h.g.MaterializePtr(s, h.m)
 	case "noreg":
 		noreg = true
 		fn := c.w.fn("codec.Clear")
